@@ -130,8 +130,10 @@ P = {
          "reachable result is valid in the state it is offered in (C11_every_offer_is_valid_in_every_run_every_instance, SMP/OffersValid.v). "
          "Absence of deadlock is FALSE of the code and refuted by theorem inside the property's configuration "
          "class: C11_refuted (always-accept reaches a non-terminal state without offers; every further action raises, for every "
-         "fuel) and C11_refuted_hang; both witnesses are replayed on the implementation on every run. The check classifies every "
-         "dead end reached. " + TIE),
+         "fuel) and C11_refuted_hang; 'with early transport disabled an AGV is only dispatched to a ready job' is FALSE too: "
+         "C11_dispatch_only_to_ready_jobs_refuted (a release and a zero-travel dispatch computed from one state, the release applied first; "
+         "found while trying to prove the dispatch event clause along every run). All three witnesses are replayed on the implementation on every "
+         "run. The check classifies every dead end reached; readiness tests regenerated from source (C11_*_is_the_code's). " + TIE),
  "C12": ("SM", "Theorems (Props/C12.v; SMP/Clock, ClockStep, ClockMain): no transition moves the clock; the time machines used by the "
          "middleware never move it backwards and never past a pending completion; the clock invariant NO (nothing pending lies in the "
          "past) holds in every live reachable state and micro-state, with reflection to the extracted clock_b. Translation invariance "
